@@ -198,6 +198,43 @@ pub fn run(ctx: &mut Ctx) {
 		));
 	}
 
+	// L — long flat documents (counters, limits and buffers that only matter at scale)
+	if ctx.wants("L_long_documents") {
+		ctx.begin_family("L_long_documents");
+		let sizes: Vec<usize> = if ctx.quick() { vec![1_000, 12_000, 70_000] } else { vec![1_000, 12_000, 70_000, 300_000, 1_000_000] };
+		let mut docs: Vec<Vec<u8>> = vec![];
+		for &n in &sizes {
+			let records: String = (0..n).map(|i| format!("{{\"id\":{i}}}")).collect::<Vec<_>>().join(",");
+			let numbers: String = (0..n).map(|i| format!("{}", i as f64 / 8.0)).collect::<Vec<_>>().join(", ");
+			let strings: String = (0..n).map(|i| format!("\"s{i}\\n\"")).collect::<Vec<_>>().join(",");
+			let nested: String = (0..n).map(|i| format!("[[{i}],{{}}]")).collect::<Vec<_>>().join(",");
+			let members: String = (0..n).map(|i| format!("\"k{i}\":[{i}]")).collect::<Vec<_>>().join(",");
+			for body in [format!("[{records}]"), format!("[{numbers}]"), format!("[{strings}]"), format!("[{nested}]"), format!("{{{members}}}"), format!("\"{}\"", "x\u{e9}".repeat(n)), format!("{}", "7".repeat(n)), format!("[{}]", " ".repeat(n))] {
+				// the valid document, and three damaged variants near its end
+				let b = body.into_bytes();
+				let l = b.len();
+				docs.push(b.clone());
+				let mut t = b.clone();
+				t.truncate(l - 1);
+				docs.push(t);
+				let mut d = b.clone();
+				d.insert(l - 1, b',');
+				docs.push(d);
+				let mut e = b.clone();
+				e.push(b']');
+				docs.push(e);
+			}
+		}
+		let acc = pf::run_list(&docs, false, &two);
+		ctx.add(acc.into_fam(
+			"L_long_documents",
+			&format!("synthesised long flat documents with {sizes:?} elements (records, numbers, strings, nested pairs, one object with that many members, one long string, one long number, long whitespace), each also truncated, with a stray comma and with an extra closing bracket; parse_str and parse_slice vs the reference automaton"),
+			true,
+			CLASSES,
+			&extra_two,
+		));
+	}
+
 	// F5 — grammar-based + mutational sampling
 	if ctx.wants("F5_grammar_mutation") {
 		let n = ctx.pick(20_000, 500_000);
